@@ -40,6 +40,11 @@ impl AsyncOverlayFS {
         if path.is_empty() {
             return Ok(self.layers[0].clone());
         }
+        // see the sync OverlayFS::read_path: the write layer is looked at before the markers
+        let write_path = self.write_path(path)?;
+        if write_path.exists().await? {
+            return Ok(write_path);
+        }
         if self.whiteout_path(path)?.exists().await? {
             return Err(VfsErrorKind::FileNotFound.into());
         }
@@ -190,6 +195,9 @@ impl AsyncFileSystem for AsyncOverlayFS {
     }
 
     async fn exists(&self, path: &str) -> VfsResult<bool> {
+        if self.write_path(path)?.exists().await? {
+            return Ok(true);
+        }
         if self
             .whiteout_path(path)
             .map_err(|err| err.with_context(|| "whiteout_path"))?
